@@ -18,7 +18,6 @@ RULE = ('base URLs (http/https/ftp/unregistered scheme with //; name, IPv4 or IP
         'idempotent. Every run also replays the 37 in-domain examples of RFC 3986 5.4 with the RFC\'s own expected results and enumerates all '
         'reference paths of <=5 segments over {".", "..", "", "x"} against 12 base shapes. non-trivial = the reference path has a dot or empty '
         'segment, or the reference is query-/fragment-only against a base with a query. distinct = distinct canonical JSON of the case.')
-RULE += " Round 6: the stale-base check also edits the base's query_params (add, clear, delete, set) and fragment in place before same-document ('#zz', ''), query-only and relative references, comparing with a fresh URL(base.to_text())."
 ASSUMPTIONS = [
     'references with an authority (//h/...) or with a scheme but no host are outside the statement',
     'present-but-empty query/fragment cannot be represented by URL (documented TODO): queries and fragments are non-empty when present',
